@@ -251,12 +251,14 @@ def run(ctx, sess):
     ctx.rule('C02.3', 'coverage: a level-1 entry reduces sample_decimate_factor samples and a level-L entry summary_decimate_factor entries of the level below in the writer, and the reader steps by sample_decimate_factor x summary_decimate_factor^(L-1) samples per entry of level L (traced for L = 1..5)')
     ctx.rule('C02.6', 'the first whole summary entry of a request is found on the grid of the summary chunk: traced for starts, chunk timestamps and steps that are not multiples of each other, the entry sample id is the chunk timestamp plus a whole number of steps, lies in [start, start + step), and the entry index is that number of steps')
     ctx.rule('C02.7', 'the writer builds its variances from squared deviations (two passes), never as mean of squares minus square of the mean (sign analysis of every value stored into a variance accumulator of wr_fsr.c)')
+    ctx.rule('C02.8', 'the sample converter fills what it is asked for: traced for every accepted data type and counts around the byte boundaries (1, 2, 7, 8, 9, 15, 16, 17, 64), jls_dt_buffer_to_f64 stores every entry 0..samples-1 of its destination')
     ctx.rule('C02.4', 'sample-id frames on the statistics path: the sample_id_offset is applied exactly once to each value and no compare mixes an api-relative id with a file id')
     ctx.rule('C02.5', 'shared: non-finite values are skipped at every level (C09.4); accumulator algebra of statistics.c - alias safety, empty operands, extremes, non-negative variance, no division by a zero count (C20.1-C20.5); the summary payload length covers every entry of either width (C05.11); the level-0 scratch is filled only up to its allocated length (C10.23)')
     columns_rule(ctx, P, 'C02.1')
     extremes_rule(ctx, P, 'C02.2')
     coverage_rule(ctx, P, 'C02.3')
     entry_grid_rule(ctx, P, 'C02.6')
+    converter_rule(ctx, P, 'C02.8')
     from .c20 import variance_locals_rule
     variance_locals_rule(ctx, P, 'C02.7')
     from .frames import frames_rule
@@ -268,7 +270,7 @@ def run(ctx, sess):
     relay(ctx, sess, _c05.run, {'C05.11': 'C02.5'}, minimum=1)
     relay(ctx, sess, _c10.run, {'C10.23': 'C02.5'}, minimum=2)
     from . import c15 as _c15
-    relay(ctx, sess, _c15.run, {'C15.10': 'C02.5'}, minimum=1)
+    relay(ctx, sess, _c15.run, {'C15.10': 'C02.5', 'C15.12': 'C02.5'}, minimum=1)
 
 
 
@@ -334,3 +336,56 @@ def entry_grid_rule(ctx, P, rule):
            'on the grid of the summary chunk for %d (start, chunk, step) combinations' % n if not bad else
            '; '.join(bad[:2]) + ': the head and the tail of the window are then computed from the wrong samples (counted twice or dropped) whenever the signal does not start at a multiple of the step')
     ctx.floor('first-entry traces', n, 40)
+
+
+def converter_rule(ctx, P, rule):
+    """jls_dt_buffer_to_f64 fills every one of the `samples` entries it is asked for, for every accepted type"""
+    from ..fd import trace_calls, Top, FD
+    from .defnorm import accepted_data_types
+    fn = P.fn('jls_dt_buffer_to_f64')
+    ctx.saw(fn)
+    dts = accepted_data_types(P)
+    dst = fn.params[2]['name']
+    fd = FD(P)
+    bad = []
+    n = 0
+    unsupported = set()
+    for dt in sorted(dts):
+        for samples in (1, 2, 7, 8, 9, 15, 16, 17, 64):
+            written = set()
+            base = 0x100000
+
+            def on_store(ev, env, sym, written=written, base=base):
+                lhs, rhs, o = ev.store_parts()
+                l0 = strip_casts(lhs)
+                try:
+                    if l0.get('op') == 'sub' and strip_casts(l0['k'][0]).get('name') == dst:
+                        written.add((env[dst] - base) + fd.ev(fn, l0['k'][1], env))
+                    elif l0.get('op') == 'un' and l0.get('o') == '*':
+                        inner = l0['k'][0]
+                        while inner.get('op') in ('cast', 'paren'):
+                            inner = inner['k'][0]
+                        if inner.get('op') == 'un' and inner.get('o') == 'post++' and strip_casts(inner['k'][0]).get('name') == dst:
+                            # the increment event came first: the element just left
+                            written.add((env[dst] - base) // 1 - 1)
+                except Exception:
+                    pass
+            box = []
+            try:
+                trace_calls(P, fn, {fn.params[1]['name']: dt, dst: base, fn.params[3]['name']: samples, fn.params[0]['name']: 0x200000},
+                            assume_calls=0, partial=True, max_steps=6000, on_store=on_store, no_inline=('uint4_to_int8',), _retbox=box)
+            except Top:
+                pass
+            if not written and box and isinstance(box[0], int) and box[0] != 0:
+                unsupported.add(dt)          # the converter refuses the type (24-bit): the known finding C16.3, not a fill defect
+                continue
+            n += 1
+            missing = [i for i in range(samples) if i not in written]
+            if missing:
+                bad.append('type 0x%x, %d samples: entries %s are not written' % (dt, samples, missing[:4]))
+    ctx.ob(rule, not bad, fn.name, 'every requested entry is converted', fn.where(),
+           '%d (type, count) pairs traced' % n if not bad else
+           '; '.join(bad[:2]) + ' [types failing: %s] (%d of %d pairs): statistics over the last samples of a block whose count is not a multiple of what one byte holds are computed from whatever the scratch held before' % (sorted(set(b_.split(',')[0] for b_ in bad)), len(bad), n))
+    if unsupported:
+        ctx.note('%s: types the converter refuses (no case): %s' % (rule, ['0x%x' % d_ for d_ in sorted(unsupported)]))
+    ctx.floor('(type, count) pairs traced through the converter', n, 60)
